@@ -34,11 +34,7 @@ COUNTS = {}
 FIRED = []
 
 
-class UnprintableError(ProgError):
-    def __str__(self):
-        raise IndexError('this exception has no printable form')
-
-    __repr__ = __str__
+UnprintableError = programs.UnprintableError
 
 
 def fault_point(name, pos, proc=None):
